@@ -1,0 +1,10 @@
+//go:build verif
+
+// Contracts for govc (/verif): C30 peer authentication. Comment-only file.
+
+package common
+
+//@ func (a Address) Hash
+//@   property C30
+//@   pure
+//@   ensures result == crypto.Sha3Of(cat(seq(a.PublicSpendKey), seq(a.PublicViewKey)))
